@@ -266,7 +266,12 @@ int spki_table_src_remove(struct spki_table *spki_table, const struct rtr_socket
 				pthread_rwlock_unlock(&spki_table->lock);
 				return SPKI_ERROR;
 			}
+
+			struct spki_record record;
+
+			key_entry_to_spki_record(entry, &record);
 			lrtr_free(entry);
+			spki_table_notify_clients(spki_table, &record, false);
 		} else {
 			current_node = current_node->next;
 		}
